@@ -426,6 +426,7 @@ func c14Run(c *Ctx) {
 	}
 	Flags{}.Apply()
 	c14Ladders(c)
+	c14Churn(c)
 	// line locality in selective mode: the verdict for a line must not depend on the lines before it.  All
 	// sequences up to length 3 (quick 2) over lines that spell the same path as a dotted key, as nested
 	// documents, under operators and arrays, through the real CLI (fresh process per sequence, one line per
@@ -448,6 +449,72 @@ func c14Run(c *Ctx) {
 		}
 		c06CLI(c, alpha, n, Flags{Z: c14Families[c.Shard].re})
 	}
+}
+
+// c14Churn: the verdict for a name after OTHER names have passed through the process.  One in-process history per
+// regexp: for EVERY gap g = 1 … N, a line with a matching and a non-matching name, then g field names never seen
+// before (lines of up to 40 fresh keys), then the first line again; the matching literal must be redacted and the
+// other one kept, each time.  Bounded name tables, verdict memos and rings are refilled g names at a time, so any
+// capacity up to N is crossed, whatever the eviction rule (and whether or not a look-up refreshes an entry).
+func c14Churn(c *Ctx) {
+	if c.NShards > 1 && c.Shard >= len(c14Families) {
+		return
+	}
+	fam := c14Families[c.Shard%len(c14Families)]
+	maxGap := 1300
+	if c.Thorough() {
+		maxGap = 5000
+	}
+	Flags{Z: fam.re}.Apply()
+	defer Flags{}.Apply()
+	probe := func(where string, gap int) {
+		for _, form := range []string{
+			`{"find":"staff","filter":{"` + fam.match[0] + `":"111-22-3333 churn","` + fam.plain[0] + `":"kept churn"},"$db":"hr"}`,
+			`{"aggregate":"staff","pipeline":[{"$match":{"` + fam.match[0] + `":{"$in":["111-22-3333 churn"]},"` + fam.plain[0] + `":{"$in":["kept churn"]}}}],"$db":"hr"}`,
+		} {
+			line := `{"t":{"$date":"2024-05-01T10:00:00.123+00:00"},"s":"I","c":"COMMAND","id":51803,"ctx":"conn1","msg":"Slow query","attr":{"type":"command","ns":"hr.staff","command":` + form + `,"durationMillis":5}}`
+			out, ok, pv := redactLine(line)
+			c.Eval(1)
+			if pv != nil || !ok {
+				continue
+			}
+			leaked, over := strings.Contains(out, "111-22-3333 churn"), !strings.Contains(out, "kept churn")
+			if leaked || over {
+				what, sig := "the literal under the matching name is emitted unchanged", "not-redacted"
+				if !leaked {
+					what, sig = "the literal under a name that does not match is redacted", "redacted-without-match"
+				}
+				c.Violate("selective-churn:"+sig, fmt.Sprintf("regexp %s: %s %s (gap: %d names never seen before were processed since the same line was last handled correctly)", fam.re, what, where, gap), int64(gap),
+					map[string]any{"kind": "c14-churn", "regexp": fam.re, "gap": gap, "line": line, "output": out}, nil)
+			}
+		}
+	}
+	probe("at the start of the history", 0)
+	fresh := 0
+	for g := 1; g <= maxGap; g++ {
+		for left := g; left > 0; {
+			n := left
+			if n > 40 {
+				n = 40
+			}
+			var sb strings.Builder
+			for k := 0; k < n; k++ {
+				if k > 0 {
+					sb.WriteByte(',')
+				}
+				fresh++
+				fmt.Fprintf(&sb, `"churnName%d":"v"`, fresh)
+			}
+			line := `{"t":{"$date":"2024-05-01T10:00:00.123+00:00"},"s":"I","c":"COMMAND","id":51803,"ctx":"conn1","msg":"Slow query","attr":{"type":"command","ns":"hr.staff","command":{"find":"staff","filter":{` + sb.String() + `},"$db":"hr"},"durationMillis":5}}`
+			redactLine(line)
+			c.Eval(1)
+			left -= n
+		}
+		probe("after the churn", g)
+		c.Distinct(fmt.Sprintf("churn|%s|%d", fam.re, g))
+	}
+	c.Count("max:churn_gap", int64(maxGap))
+	c.Count("churn_fresh_names", int64(fresh))
 }
 
 func init() {
